@@ -173,6 +173,14 @@ fn drive<F: TagFrame, S: Signal<Frame = F> + Clone>(
     if cap == 1 {
         obs.probe(P_CAP1);
     }
+    // (half of the runs: a Vec whose allocation is larger than the buffer it holds)
+    let data = if src.cfg("spare_capacity", 0, 1, |r| r.range(0, 1)) == 1 {
+        let mut v = Vec::with_capacity(cap + 1 + cap / 2);
+        v.extend(data);
+        v
+    } else {
+        data
+    };
     let rb = Bounded::from_raw_parts(start, prefill, data);
     let mut b = Some(sig.buffered(rb));
     let mut done = 0usize;
